@@ -57,6 +57,10 @@ R2 = {
     "C17_6": "one iteration of the auto-reload loop as an extra thread, with a good and a failing adapter (failing input instead of only a table mismatch)",
     "C18_5": "an adapter whose update_filtered_policies raises (several exception classes), sync vs async",
     "C20_4": "load_model inside histories (policy invalidated, watcher and flags must stay)",
+    "C02_2": "eval() sub-expressions that begin and end with a bracket, under &&, || and ! (failing input instead of only a char-level disagreement)",
+    "C02_5": "string literals with blanks in them in the end-to-end stream (failing input instead of only a char-level disagreement)",
+    "C04_3": "pattern stream: key_match as domain / role-name matching function, pattern assignments revoked between queries, fresh-enforcer oracle (was caught by C14 only)",
+    "C11_5": "file-failure stream: file adapters, file gone / short grouping line, is_filtered() among the compared queries (was caught by C12 only); shows F26b under C11",
     "C20_5": "AsyncEnforcer with a watcher whose operation-specific callbacks are plain functions; callbacks record malformed arguments instead of failing",
 }
 for sid in sorted(os.listdir(os.path.join(VERIF, "seeded"))):
